@@ -425,7 +425,15 @@ class SymPattern:
         return self._m(ops, 0, s, pos, {}, endpos, k)
 
     def _symbolic(self, string: Any) -> bool:
-        return isinstance(string, _SymSeq)
+        # a proxy without symbolic items is handed to the real engine (the matcher below recurses per character)
+        return isinstance(string, _SymSeq) and not (string._items is not None and string.is_concrete())
+
+    @staticmethod
+    def _low(string: Any) -> Any:
+        if isinstance(string, _SymSeq):
+            v = string.lower_concrete()
+            return bytes(v) if isinstance(v, (bytearray, memoryview)) else v
+        return string
 
     def _prep(self, string: Any, pos: int, endpos: Any) -> tuple:
         if not isinstance(string, _SymSeq):
@@ -446,21 +454,21 @@ class SymPattern:
 
     def match(self, string: Any, pos: int = 0, endpos: Any = None) -> Any:
         if not self._symbolic(string) and not self._has_ph():
-            return self.real.match(string, *self._real_args(pos, endpos))
+            return self.real.match(self._low(string), *self._real_args(pos, endpos))
         string, pos, endpos = self._prep(string, pos, endpos)
         r = self._match_at(string, pos, endpos)
         return None if r is None else SymMatch(self, string, pos, r[0], r[1], pos, endpos)
 
     def fullmatch(self, string: Any, pos: int = 0, endpos: Any = None) -> Any:
         if not self._symbolic(string) and not self._has_ph():
-            return self.real.fullmatch(string, *self._real_args(pos, endpos))
+            return self.real.fullmatch(self._low(string), *self._real_args(pos, endpos))
         string, pos, endpos = self._prep(string, pos, endpos)
         r = self._match_at(string, pos, endpos, full=True)
         return None if r is None else SymMatch(self, string, pos, r[0], r[1], pos, endpos)
 
     def search(self, string: Any, pos: int = 0, endpos: Any = None) -> Any:
         if not self._symbolic(string) and not self._has_ph():
-            return self.real.search(string, *self._real_args(pos, endpos))
+            return self.real.search(self._low(string), *self._real_args(pos, endpos))
         string, pos, endpos = self._prep(string, pos, endpos)
         for st in range(pos, endpos + 1):
             r = self._match_at(string, st, endpos)
@@ -470,7 +478,7 @@ class SymPattern:
 
     def finditer(self, string: Any, pos: int = 0, endpos: Any = None) -> Any:
         if not self._symbolic(string) and not self._has_ph():
-            yield from self.real.finditer(string, *self._real_args(pos, endpos))
+            yield from self.real.finditer(self._low(string), *self._real_args(pos, endpos))
             return
         string, pos, endpos = self._prep(string, pos, endpos)
         st = pos
@@ -500,7 +508,7 @@ class SymPattern:
                 # the callback may return symbolic data; do it by hand
                 pass
             else:
-                return self.real.sub(repl, string, count)
+                return self.real.sub(repl, self._low(string), count)
         if not self._symbolic(string):
             from .symbytes import lift
             string = lift(string)
@@ -530,7 +538,7 @@ class SymPattern:
 
     def split(self, string: Any, maxsplit: int = 0) -> Any:
         if not self._symbolic(string) and not self._has_ph():
-            return self.real.split(string, maxsplit)
+            return self.real.split(self._low(string), maxsplit)
         out = []
         last = 0
         n = 0
